@@ -829,6 +829,139 @@ def mon_C19(ops, results):
     return out
 
 
+def mon_C10(ops, results):
+    """across a close / reopen (in-process restart of an on-disk bucket): every document reads back as before, and the pending
+    expirations are re-armed (the next scheduled expiry is the smallest stored one)."""
+    out = []
+    touched = set()
+    since_restart = None     # (index of the restart, snapshot of last read-backs at that time)
+    modified = set()
+    for i, name, pos, args, res, last, feeds in Trace(ops, results).steps():
+        if name in MUTATORS and len(pos) >= 2:
+            touched.add((pos[0], pos[1]))
+            modified.add((pos[0], pos[1]))
+        if name in ("purge", "fire"):
+            since_restart = None
+            modified = set(touched)
+        if name == "restart":
+            if not res.startswith("r=ok"):
+                out.append(viol("C10.reopen-succeeds", i, "reopening the bucket failed: " + res[:80]))
+                continue
+            rf = res_fields(res)
+            snapshot = {k: dict(v) for k, v in last.items()}
+            since_restart = (i, snapshot)
+            modified = set()
+            if touched and all(k in last for k in touched) and "next" in rf:
+                exps = [int(d.get("row.exp", "0")) for d in last.values() if not absent(d) and int(d.get("row.exp", "0")) > 0]
+                want = min(exps) if exps else 0
+                if int(rf["next"]) != want:
+                    out.append(viol("C10.pending-expirations-rearmed", i, "after the reopen the next scheduled expiry is %s; the smallest stored expiry is %d" % (rf["next"], want)))
+        if name == "rb" and since_restart is not None and res.startswith("row=") and len(pos) >= 2:
+            key = (pos[0], pos[1])
+            before = since_restart[1].get(key)
+            if before is not None and key not in modified:
+                now = rb_fields(res)
+                diff = [f for f in ROWF if before.get(f) != now.get(f)]
+                if diff:
+                    out.append(viol("C10.reopen-keeps-documents", i, "%s/%s changed across the reopen at line %d: %s" % (
+                        pos[0], pos[1], since_restart[0], ", ".join("%s %s -> %s" % (f, before.get(f), now.get(f)) for f in diff))))
+    return out
+
+
+def mon_C13(ops, results):
+    """registry scripts: open modes succeed / fail by whether the bucket exists, a closed handle's calls fail with bucket-closed while
+    other handles keep working, handles of a name share one store, data survives closes (on disk: the last close; in memory: until
+    CloseAndDelete) and is gone after CloseAndDelete. Judged only where the property's text decides the outcome."""
+    out = []
+    mem = {}        # name -> store dict (exists while present)
+    disk = {}       # url -> (name, store dict)
+    handles = {}    # label -> dict(name, url, store, closed, dead)
+    leaked = []     # handle objects whose label was reused while open
+    for i, line in enumerate(ops):
+        name, pos, args = parse_op(line)
+        res = results[i] if i < len(results) else ""
+        r = res.split(" ")[0]
+        r = r[2:] if r.startswith("r=") else r
+
+        def objs():
+            return list(handles.values()) + leaked
+        if name == "open":
+            h, url, bname, mode = pos[0], arg(args, "url"), arg(args, "name"), int(arg(args, "mode", "0"))
+            open_elsewhere = any(o["name"] == bname and o["url"] != url and not o["closed"] and not o["dead"] for o in objs())
+            mem_lingers = bname in mem and url != "mem"
+            disk_other = any(u != url and n == bname for u, (n, _) in disk.items()) and url != "mem"
+            if url == "mem":
+                exists_here = bname in mem
+                foreign = False
+            else:
+                exists_here = url in disk
+                foreign = exists_here and disk[url][0] != bname
+            if open_elsewhere:
+                if r == "ok":
+                    out.append(viol("C13.other-url-refused", i, "%s is open at another URL but OpenBucket(%s) succeeded" % (bname, url)))
+            elif not mem_lingers and not foreign and not disk_other:
+                if mode == 1 and (r == "exist") != exists_here:
+                    out.append(viol("C13.createnew-fails-iff-exists", i, "CreateNew of %s at %s returned %s but the bucket %s" % (bname, url, r, "exists" if exists_here else "does not exist")))
+                if mode == 2 and (r == "notexist") != (not exists_here):
+                    out.append(viol("C13.reopenexisting-fails-iff-absent", i, "ReOpenExisting of %s at %s returned %s but the bucket %s" % (bname, url, r, "exists" if exists_here else "does not exist")))
+                if mode == 0 and r != "ok":
+                    out.append(viol("C13.createoropen-succeeds", i, "CreateOrOpen of %s at %s returned %s" % (bname, url, r)))
+            if r == "ok":
+                if url == "mem":
+                    store = mem.setdefault(bname, {})
+                else:
+                    if url not in disk:
+                        disk[url] = (bname, {})
+                    store = disk[url][1]
+                old = handles.get(h)
+                if old is not None and not old["closed"] and not old["dead"]:
+                    leaked.append(old)
+                handles[h] = {"name": bname, "url": url, "store": store, "closed": False, "dead": False}
+        elif name == "hclose":
+            o = handles.get(pos[0])
+            if o is not None:
+                o["closed"] = True
+        elif name == "cad":
+            o = handles.get(pos[0])
+            if o is not None and r == "ok" and not o["dead"]:
+                if o["url"] == "mem":
+                    mem.pop(o["name"], None)
+                else:
+                    disk.pop(o["url"], None)
+                for x in objs():
+                    if x["store"] is o["store"]:
+                        x["dead"] = True
+                o["store"].clear()
+        elif name in ("put", "get"):
+            o = handles.get(pos[0])
+            if o is None:
+                continue
+            if o["closed"] and not o["dead"]:
+                if r != "closed":
+                    out.append(viol("C13.closed-handle-fails", i, "%s through a closed handle returned %s instead of a bucket-closed error" % (name, r)))
+            elif o["dead"]:
+                if r == "ok":
+                    out.append(viol("C13.deleted-bucket-fails", i, "%s through a handle of a deleted bucket succeeded" % name))
+            else:
+                # an open handle keeps working whatever happened to the other handles
+                if name == "put":
+                    if r != "ok":
+                        out.append(viol("C13.other-handles-keep-working", i, "put through the open handle %s failed: %s" % (pos[0], r)))
+                    else:
+                        o["store"][pos[1]] = arg(args, "v")
+                else:
+                    want = o["store"].get(pos[1])
+                    got = None
+                    for t in res.split(" "):
+                        if t.startswith("v=") or t.startswith("v~"):
+                            got = t[2:] if t.startswith("v=") else None
+                    if want is None and r != "missing":
+                        out.append(viol("C13.shared-store", i, "get %s through %s returned %s; no handle of this bucket wrote it (or the bucket was deleted since)" % (pos[1], pos[0], res.split(" | ")[0])))
+                    if want is not None and (r != "ok" or got != want):
+                        out.append(viol("C13.data-intact", i, "get %s through %s returned %s; the last value written to this bucket is %s" % (pos[1], pos[0], res.split(" | ")[0], want)))
+    return out
+
+
 def mon_C12(ops, results):
     """a non-stale view query returns what the map function emits for the collection's current documents (as the KV read-back shows
     them), ordered and filtered as requested - computed by the independent oracle lib/viewspec.py."""
@@ -992,5 +1125,5 @@ def mon_C14(ops, results):
     return out
 
 
-MONITORS = {"C12": mon_C12, "C14": mon_C14, "C15": mon_C15, "C18": mon_C18, "C19": mon_C19, "C04": mon_C04, "C01": mon_C01, "C02": mon_C02, "C05": mon_C05, "C06": mon_C06, "C07": mon_C07, "C08": mon_C08, "C09": mon_C09,
+MONITORS = {"C13": mon_C13, "C10": mon_C10, "C12": mon_C12, "C14": mon_C14, "C15": mon_C15, "C18": mon_C18, "C19": mon_C19, "C04": mon_C04, "C01": mon_C01, "C02": mon_C02, "C05": mon_C05, "C06": mon_C06, "C07": mon_C07, "C08": mon_C08, "C09": mon_C09,
             "C11": mon_C11, "C17": mon_C17}
